@@ -19,6 +19,7 @@ RULE = ("(a) reneging: NetSpecs with logged reneging distributions per class and
         "baulk <=> u < p, a baulker is at the exit at once with one baulk record showing that population, others are admitted.  "
         "Non-trivial: (a) >= 1 renege and >= 1 patient customer served; (b) >= 1 baulk and >= 1 admission under a baulking function.")
 ASSUMPTIONS = ["the pass-through installed as ciw.arrival_node.random returns the real random.random() value (behaviour unchanged)"]
+TECHNIQUE = 'property-based testing with logged patience samples and observed baulking decisions (function arguments and the uniform variate)'
 WALL = {"quick": 150, "thorough": 540}
 
 REN_ALLOWED = ["schedule", "capacity", "priorities", "reneging", "jockeying", "batching", "cc_after", "cc_waiting", "discipline",
